@@ -790,18 +790,20 @@ class ODLEncoder(PVLEncoder):
         if value.utcoffset() == datetime.timedelta():
             return t + "Z"
         else:
-            td_str = str(value.utcoffset())
-            (h, m, s) = td_str.split(":")
-            if s != "00":
+            seconds = value.utcoffset().total_seconds()
+            sign = "-" if seconds < 0 else "+"
+            (minutes, s) = divmod(abs(seconds), 60)
+            (h, m) = divmod(int(minutes), 60)
+            if s != 0:
                 raise ValueError(
                     "The datetime value had a timezone offset "
                     f"with seconds values ({value}) which is "
                     "not allowed in ODL."
                 )
-            if m == "00":
-                return t + f"+{h:0>2}"
+            if m == 0:
+                return t + f"{sign}{h:02d}"
             else:
-                return t + f"+{h:0>2}:{m}"
+                return t + f"{sign}{h:02d}:{m:02d}"
 
         return t
 
